@@ -214,6 +214,9 @@ DOCS = [
     ("iref_ambiguous", "<inv:#*>\n", {"myst_inventories": {"k": ["https://x.invalid/", "@INV@"]}}),
     ("directive_parse", "```{image} a.png\n\nbody\n```\n"),
     ("heading_slug", "# A\n\ntext\n", {"myst_heading_slug_func": int}),
+    # warnings raised inside a heading / a definition term: the name and id derived from the text do not contain them
+    ("role_unknown", "# Title {nosuchrole}`x` end\n\npara\n", {"myst_heading_anchors": 1}),
+    ("role_unknown", "Term {nosuchrole}`x`\n: definition\n", {"myst_enable_extensions": ["deflist"]}),
 ]
 _INV = []
 
